@@ -75,7 +75,7 @@ CLAIMS = {
   technique="static analysis: interprocedural origin (taint) tracking on go/ssa + VTA call-graph reachability (init-only / post-construction sets)",
   ref="DESIGN.md §4 C17"),
  "C18": dict(
-  text="Two structural clauses of the unsafe-to-break property: (R-PROP) in shaperOpentype.shape propagateFlags runs on every path to the exit and nothing that may write GlyphInfo.Mask (P-FX) runs after it, and Buffer.setGlyphFlags sets the scratch flag that enables propagation before any mask write; (R-UTB/exists) every function of the OpenType layout engine that reads neighbouring glyphs through a context primitive (skippingIterator.next/prev, matchInput/Backtrack/Lookahead) can reach, after that read, a call that marks the inspected range (unsafeToBreak*, mergeClusters*, or a helper reaching one), itself or in all its callers; (R-UTB/must) in those functions no path from the context read to a constant `return true` within the same loop iteration avoids every marking call; (R-MINCL) in Buffer.setGlyphFlags the cluster exempted from an interior flag is the result of a findMinCluster chain over exactly the ranges that receive the flag. (R-UTB/syllables) every function that calls a syllable finder iterates over the syllables on every path and flags each of them whole with unsafeToBreak(start, end) on the two results of syllableIterator.next(); (R-UTB/halfopen) no function flags the half-open range [start, end) and stores into the glyph at index end. That the marked range is the right one beyond these clauses, and the script shapers' joining and reordering decisions, are NOT decided.",
+  text="Two structural clauses of the unsafe-to-break property: (R-PROP) in shaperOpentype.shape propagateFlags runs on every path to the exit and nothing that may write GlyphInfo.Mask (P-FX) runs after it, and Buffer.setGlyphFlags sets the scratch flag that enables propagation before any mask write; (R-UTB/exists) every function of the OpenType layout engine that reads neighbouring glyphs through a context primitive (skippingIterator.next/prev, matchInput/Backtrack/Lookahead) can reach, after that read, a call that marks the inspected range (unsafeToBreak*, mergeClusters*, or a helper reaching one), itself or in all its callers; (R-UTB/must) in those functions no path from the context read to a constant `return true` within the same loop iteration avoids every marking call; (R-MINCL) in Buffer.setGlyphFlags the cluster exempted from an interior flag is the result of a findMinCluster chain over exactly the ranges that receive the flag. (R-UTB/syllables) every function that calls a syllable finder iterates over the syllables on every path and flags each of them whole with unsafeToBreak(start, end) on the two results of syllableIterator.next(); (R-UTB/halfopen) no function flags the half-open range [start, end) and stores into the glyph at index end; (R-UTB/cursor) a marking call whose range starts at the cursor is not preceded in the same loop iteration by anything that may move the cursor. That the marked range is the right one beyond these clauses, and the script shapers' joining and reordering decisions, are NOT decided.",
   note="R-UTB/must is path-insensitive apart from cutting loop back edges; one instance (applyGPOS/next) is decided by reading and listed with its reason; R-MINCL is anchored on setGlyphFlags/findMinCluster/infosSetGlyphFlags and is undecided (exit 2) if their shape changes",
   technique="static analysis: CFG must-follow, field-effect sets and reachability on go/ssa",
   ref="DESIGN.md §4 C18"),
